@@ -17,6 +17,22 @@ class Opaque:
         return 7
 
 
+class DigestSpec:
+    """A literal digest value in a spec (built into a real DigestValue at run time)."""
+
+    def __init__(self, alg, secret, salt=None):
+        self.alg, self.secret, self.salt = alg, secret, salt
+
+    def __repr__(self):
+        return "DigestSpec(%s, %r)" % (self.alg, self.secret)
+
+    def __eq__(self, other):
+        return isinstance(other, DigestSpec) and (self.alg, self.secret, self.salt) == (other.alg, other.secret, other.salt)
+
+    def __hash__(self):
+        return hash((self.alg, self.secret))
+
+
 def enc(v):
     if v is None or isinstance(v, (bool, str)):
         return v
@@ -46,6 +62,8 @@ def enc(v):
         return {"$d": [[enc(k), enc(x)] for k, x in v.items()]}
     if isinstance(v, Opaque):
         return {"$o": 1}
+    if isinstance(v, DigestSpec):
+        return {"$digest": [v.alg, enc(v.secret), enc(v.salt)]}
     if isinstance(v, complex):
         return {"$c": [v.real, v.imag]}
     return {"$repr": repr(v)[:200]}
@@ -71,6 +89,8 @@ def dec(v):
                 return {dec(a): dec(b) for a, b in x}
             if k == "$o":
                 return Opaque()
+            if k == "$digest":
+                return DigestSpec(x[0], dec(x[1]), dec(x[2]))
             if k == "$c":
                 return complex(*x)
             if k == "$repr":
